@@ -11,16 +11,25 @@
    Layer 2 (merge loop of SimpleMultiChangesFeed in db/changes.go) over all lists of feeds.
    Layer 3: expected_changes, the answer computed from the write history alone.
 
+   Layer 1b (db/changes.go changesFeed, db/channel_cache_single.go bypassChannelCache): the
+   pagination loop over ChannelQueryLimit and the bypass cache (ChangesFeed.v).
+   Layer 3 with tokens: expected_tok, the answer to a request carrying ANY since token on a server
+   with any low sequence (VisibleTok.v); resume-by-paging from every token the server hands out.
+
    PARTIAL with respect to the property text: the last sentence (a continuous or long-poll request
    eventually delivers every change) is about change_listener wake-ups, which are not modelled;
-   resume-by-paging is proved for simple since tokens (C01_resume_paging_partial; the full statement
-   is kept as C01_resume_paging_full_statement and checked on the real database by the harness
-   monitor changes.resume_paging); grant-triggered back-fill and revocation feeds are out of scope
-   (C13). *)
+   grant-triggered back-fill and revocation feeds are out of scope (C13): in the modelled scope no
+   row carries a TriggeredBy, a TriggeredBy token sent by a client is honoured as the code does.
+   Resume-by-paging (C01_resume_paging) is proved for every canonical since token (what
+   parseIntegerSequenceID returns for a token printed by intSeqToString, C20) and an unchanged low
+   sequence; both hypotheses are necessary (C01_resume_paging_noncanonical_refuted,
+   C01_resume_after_low_change_resends, both replayed on the real database by the harness), and the
+   earlier statement over ALL since tokens is false (C01_resume_paging_full_statement_refuted). *)
 From Coq Require Import Sorting.Sorted.
-From SG Require Import Base.Prelude C20.SeqIdGen C20.SeqId.
+From SG Require Import Base.Prelude C20.SeqIdGen C20.SeqId C20.SeqIdOrder C20.SeqIdCodec.
 From SG Require Import C01.ChanCache C01.ChanCacheLists C01.ChanCacheTruth C01.ChanCacheInv C01.ChanCacheStep C01.ChanCacheRead.
 From SG Require Import C01.Merge C01.MergeProofs C01.Visible C01.VisiblePaging.
+From SG Require Import C01.VisibleTok C01.VisibleResume C01.ChangesFeed C01.ChangesFeedProofs C01.MergePrefix.
 Open Scope N_scope.
 
 (* ---------- layer 1: the per-channel cache ---------- *)
@@ -190,10 +199,9 @@ Theorem C01_changes_end_to_end : forall hist caches user user_doc user_seq req s
 Proof. exact changes_end_to_end. Qed.
 Print Assumptions C01_changes_end_to_end.
 
-(* paging by last_seq.  Full statement: for ANY since token; proved part: simple (non-compound)
-   since tokens -- every token the server hands out in the modelled scope (no skipped sequences, no
-   back-fill) is simple, and the page's last token, from which the rest is requested, always is.
-   The compound case is checked on the real database by the monitor changes.resume_paging. *)
+(* paging by last_seq, first version: simple (non-compound) since tokens, no skipped sequences.
+   The statement over ALL since tokens was kept as the goal; it is FALSE (refuted below): the right
+   statement quantifies over the tokens a server hands out (C01_resume_paging). *)
 Definition C01_resume_paging_full_statement : Prop :=
   forall hist user user_doc user_seq req ao hi since n last,
     NoDup (map h_seq hist) -> n <> 0%nat ->
@@ -211,6 +219,215 @@ Theorem C01_resume_paging_partial : forall hist user user_doc user_seq req ao hi
 Proof. intros; apply resume_paging; auto. Qed.
 Print Assumptions C01_resume_paging_partial.
 
+(* ---------- resuming from ANY position the server handed out ---------- *)
+(* what the next request carries after a row: the row's token printed by the server and parsed back
+   (C20: parse (print_token t) = POk (canon t)); it is canonical *)
+Theorem C01_resume_token_is_parsed_print : forall r, wf64 (r_seq r) ->
+  parse (print_token (r_seq r)) = POk (resume_token r) /\ canonical (resume_token r).
+Proof. intros r H. split; [apply parse_print, H | apply canon_idem]. Qed.
+Print Assumptions C01_resume_token_is_parsed_print.
+
+(* the token-level answer extends expected_changes ... *)
+Theorem C01_expected_tok_extends : forall hist user udoc useq req since limit ao hi,
+  TriggeredBy since = 0 ->
+  expected_tok hist user udoc useq req since limit ao hi 0
+  = expected_changes hist user udoc useq req since limit ao hi.
+Proof. exact expected_tok_simple. Qed.
+Print Assumptions C01_expected_tok_extends.
+
+(* ... for a canonical token (simple s, low::s, trig:s, low:trig:s as printed) it is the answer from
+   ONE plain sequence number, stamped with the server's low sequence: every theorem about
+   expected_changes (only visible, complete, ascending, cache independent) transfers *)
+Theorem C01_expected_tok_canonical : forall hist user udoc useq req since limit ao hi low,
+  canonical since ->
+  expected_tok hist user udoc useq req since limit ao hi low
+  = map (stamp_row low)
+        (expected_changes hist user udoc useq req (mk 0 0 (chan_since (norm_since low since))) limit ao hi).
+Proof. exact expected_tok_canonical. Qed.
+Print Assumptions C01_expected_tok_canonical.
+
+(* the tokens handed out: low::seq with the server's low sequence, never a TriggeredBy (no back-fill in scope) *)
+Theorem C01_handed_out_tokens : forall hist user udoc useq req since limit ao hi low r,
+  canonical since ->
+  In r (expected_tok hist user udoc useq req since limit ao hi low) ->
+  exists q, r_seq r = mk 0 low q /\ chan_since (norm_since low since) < q.
+Proof. exact expected_tok_tokens. Qed.
+Print Assumptions C01_handed_out_tokens.
+
+(* increasing order without duplicates for EVERY since token, canonical or not *)
+Theorem C01_expected_tok_ascending_no_duplicates : forall hist user udoc useq req since limit ao hi low,
+  NoDup (map h_seq hist) ->
+  exists groups, rsorted groups /\ NoDup (map r_seq groups) /\
+    expected_tok hist user udoc useq req since limit ao hi low
+    = map (stamp_row low) (take limit (filter (keep ao hi) groups)).
+Proof. exact expected_tok_ascending. Qed.
+Print Assumptions C01_expected_tok_ascending_no_duplicates.
+
+(* cache-state independence for every since token and every low sequence *)
+Theorem C01_changes_end_to_end_tokens : forall hist caches user user_doc user_seq req since limit ao hi low,
+  map fst caches = visible user req ->
+  (forall c cache, In (c, cache) caches ->
+     exists F, truth_wf (chan_log c hist) F /\ cc_inv (chan_log c hist) F cache /\ quiescent (chan_log c hist) F) ->
+  multi_feed_tok hist caches user_doc user_seq since limit ao hi low
+  = expected_tok hist user user_doc user_seq req since limit ao hi low.
+Proof. exact changes_end_to_end_tok. Qed.
+Print Assumptions C01_changes_end_to_end_tokens.
+
+(* FULL paging statement: from ANY canonical since token -- simple, low::seq, trig:seq, low:trig:seq --
+   a page of n rows followed by the request resumed from the token of the page's last row (as printed
+   and parsed back) is the unpaged answer; any requester, any active_only, any high sequence, any low
+   sequence (unchanged between the two requests) *)
+Theorem C01_resume_paging : forall hist user user_doc user_seq req ao hi low since0 n last,
+  NoDup (map h_seq hist) -> canonical since0 -> n <> 0%nat ->
+  last_opt (expected_tok hist user user_doc user_seq req since0 n ao hi low) = Some last ->
+  expected_tok hist user user_doc user_seq req since0 n ao hi low
+    ++ expected_tok hist user user_doc user_seq req (resume_token last) 0 ao hi low
+  = expected_tok hist user user_doc user_seq req since0 0 ao hi low.
+Proof. intros; apply resume_paging_tok; auto. Qed.
+Print Assumptions C01_resume_paging.
+
+(* the hypotheses are necessary.  (1) a token no server prints ("9::0"): the channel feeds read from
+   the safe sequence 0, the user pseudo-feed is tested with SequenceID.Before against 9 *)
+Theorem C01_resume_paging_noncanonical_refuted :
+  exists hist user udoc useq req since0 n last ao hi low,
+    NoDup (map h_seq hist) /\ n <> 0%nat /\ ~ canonical since0 /\
+    last_opt (expected_tok hist user udoc useq req since0 n ao hi low) = Some last /\
+    expected_tok hist user udoc useq req since0 n ao hi low
+      ++ expected_tok hist user udoc useq req (resume_token last) 0 ao hi low
+    <> expected_tok hist user udoc useq req since0 0 ao hi low.
+Proof. exact resume_paging_noncanonical_refuted. Qed.
+Print Assumptions C01_resume_paging_noncanonical_refuted.
+
+(* hence the statement over ALL since tokens, kept above as the former goal, is false *)
+Theorem C01_resume_paging_full_statement_refuted : ~ C01_resume_paging_full_statement.
+Proof.
+  intros H.
+  specialize (H [HW 1 4 1 [2] false; HW 2 6 2 [2] false] (Some [2]) 101 5 [0] false 6 (mk 0 9 0) 1%nat
+                (mkR (mk 0 0 4) 1 1 false [] false false)).
+  assert (NoDup (map h_seq [HW 1 4 1 [2] false; HW 2 6 2 [2] false])) as Hn
+    by (repeat constructor; cbn; intuition discriminate).
+  specialize (H Hn). vm_compute in H. specialize (H ltac:(discriminate) eq_refl). discriminate.
+Qed.
+Print Assumptions C01_resume_paging_full_statement_refuted.
+
+(* (2) the low sequence changes between the two requests: rows are sent again (by design) *)
+Theorem C01_resume_after_low_change_resends :
+  exists hist since0 n last low1 low2 r,
+    NoDup (map h_seq hist) /\ canonical since0 /\
+    last_opt (expected_tok hist None 0 0 [0] since0 n false 6 low1) = Some last /\
+    In r (expected_tok hist None 0 0 [0] since0 n false 6 low1) /\
+    exists r', In r' (expected_tok hist None 0 0 [0] (resume_token last) 0 false 6 low2) /\
+               r_id r' = r_id r /\ Seq (r_seq r') = Seq (r_seq r).
+Proof. exact resume_after_low_change_resends. Qed.
+Print Assumptions C01_resume_after_low_change_resends.
+
+(* ---------- layer 1b: the pagination loop of changesFeed ---------- *)
+(* cc_inv and the ground-truth bookkeeping after EVERY operation list in which runs of changesFeed
+   (any since token, request limit, active_only, query limit) over the cache and over a bypass cache
+   are interleaved with the cache operations *)
+Theorem C01_feed_invariant_all_op_lists : forall vf maxl minl ops,
+  (1 <= maxl)%nat -> wf_xops (init_sys vf maxl minl) ops ->
+  let s := xrun (init_sys vf maxl minl) ops in
+  truth_wf (s_B s) (s_F s) /\ cc_inv (s_B s) (s_F s) (s_c s).
+Proof.
+  intros vf maxl minl ops Hm Hw s.
+  destruct (xrun_inv ops _ (init_sys_inv vf maxl minl Hm) Hw) as [W I]. split; auto.
+Qed.
+Print Assumptions C01_feed_invariant_all_op_lists.
+
+(* paginate_eq: for any query limit >= 1 the loop returns the same rows as ONE unlimited GetChanges
+   call, cut at the request limit *)
+Theorem C01_paginate_eq : forall B F ch c since reqlimit qlimit,
+  truth_wf B F -> cc_inv B F c -> quiescent B F -> seq_bounded B ->
+  (1 <= qlimit)%nat -> TriggeredBy since = 0 ->
+  snd (changes_feed B ch (SCache c) since reqlimit false qlimit)
+  = map (feed_row ch 0) (take reqlimit (snd (get_changes B c (SafeSequence since) 0 false))).
+Proof. exact paginate_eq_cache. Qed.
+Print Assumptions C01_paginate_eq.
+
+(* active_only: the loop (which leaves the request limit to the merge loop) returns the rows of one
+   unlimited active_only call and leaves the cache untouched *)
+Theorem C01_paginate_eq_active_only : forall B F ch c since reqlimit qlimit,
+  truth_wf B F -> cc_inv B F c -> quiescent B F -> seq_bounded B -> (1 <= qlimit)%nat ->
+  snd (changes_feed B ch (SCache c) since reqlimit true qlimit)
+  = snd (emit ch (TriggeredBy since) (snd (get_changes B c (SafeSequence since) 0 true))) /\
+  fst (changes_feed B ch (SCache c) since reqlimit true qlimit) = SCache c.
+Proof. exact paginate_eq_active_only_cache. Qed.
+Print Assumptions C01_paginate_eq_active_only.
+
+(* what one unlimited active_only call returns: the active part of the truth below validFrom (the
+   query filters), everything from validFrom upwards (the cache does not) *)
+Theorem C01_get_changes_active_only_exact : forall B F c since,
+  truth_wf B F -> quiescent B F -> cc_inv B F c ->
+  snd (get_changes B c since 0 true) = filter (gfilter (vfrom c)) (truth B since).
+Proof. intros; apply (get_changes_ao_unlimited B F); auto. Qed.
+Print Assumptions C01_get_changes_active_only_exact.
+
+(* any since token, TriggeredBy included, either cache implementation: the rows are the emission
+   (stamping, back-fill filter) of a prefix of the truth -- all of it unless the request limit was reached *)
+Theorem C01_paginate_prefix : forall B F ch sc since reqlimit qlimit,
+  truth_wf B F -> quiescent B F -> seq_bounded B -> sc_inv B F sc -> (1 <= qlimit)%nat ->
+  let out := snd (changes_feed B ch sc since reqlimit false qlimit) in
+  exists k, out = snd (emit ch (TriggeredBy since) (firstn k (truth B (SafeSequence since)))) /\
+    ((length (truth B (SafeSequence since)) <= k)%nat \/ (reqlimit <> 0%nat /\ (reqlimit <= length out)%nat)).
+Proof. intros; apply (paginate_prefix B F); auto. Qed.
+Print Assumptions C01_paginate_prefix.
+
+(* headline: after ANY operation list (feeds included) that leaves nothing undelivered *)
+Theorem C01_feed_after_any_history : forall vf maxl minl ops since reqlimit qlimit,
+  (1 <= maxl)%nat -> wf_xops (init_sys vf maxl minl) ops ->
+  let s := xrun (init_sys vf maxl minl) ops in
+  quiescent (s_B s) (s_F s) -> seq_bounded (s_B s) -> (1 <= qlimit)%nat -> TriggeredBy since = 0 ->
+  snd (changes_feed (s_B s) comp_chan (SCache (s_c s)) since reqlimit false qlimit)
+  = map (feed_row comp_chan 0) (take reqlimit (truth (s_B s) (SafeSequence since))) /\
+  snd (changes_feed (s_B s) comp_chan SBypass since reqlimit false qlimit)
+  = map (feed_row comp_chan 0) (take reqlimit (truth (s_B s) (SafeSequence since))).
+Proof. exact feed_after_any_history. Qed.
+Print Assumptions C01_feed_after_any_history.
+
+(* ---------- the bypass cache (MaxNumChannels exceeded: every read is a query) ---------- *)
+Theorem C01_bypass_is_degenerate_cache : forall B since n ao, since + 1 < max64 ->
+  get_changes B degenerate_cache since n ao = (degenerate_cache, bypass_get_changes B since n ao).
+Proof. exact bypass_is_degenerate. Qed.
+Print Assumptions C01_bypass_is_degenerate_cache.
+
+(* it answers like ANY channel cache satisfying cc_inv, once nothing is undelivered *)
+Theorem C01_bypass_equals_cached : forall B F c since n,
+  truth_wf B F -> quiescent B F -> seq_bounded B -> cc_inv B F c ->
+  bypass_get_changes B since n false = snd (get_changes B c since n false).
+Proof. intros; apply (bypass_equals_cached B F); auto. Qed.
+Print Assumptions C01_bypass_equals_cached.
+
+Theorem C01_bypass_equals_cached_active_only : forall B F c since,
+  truth_wf B F -> quiescent B F -> seq_bounded B -> cc_inv B F c ->
+  bypass_get_changes B since 0 true = filter is_active (snd (get_changes B c since 0 true)).
+Proof. intros; apply (bypass_equals_cached_active_only B F); auto. Qed.
+Print Assumptions C01_bypass_equals_cached_active_only.
+
+(* and the feeds over the two agree, whatever their query limits *)
+Theorem C01_bypass_feed_equals_cached_feed : forall B F ch c since reqlimit q1 q2,
+  truth_wf B F -> quiescent B F -> seq_bounded B -> cc_inv B F c ->
+  (1 <= q1)%nat -> (1 <= q2)%nat -> TriggeredBy since = 0 ->
+  snd (changes_feed B ch SBypass since reqlimit false q1)
+  = snd (changes_feed B ch (SCache c) since reqlimit false q2).
+Proof. intros; apply (bypass_feed_equals_cached_feed B F); auto. Qed.
+Print Assumptions C01_bypass_feed_equals_cached_feed.
+
+(* ---------- end to end with the real shape of the per-channel feeds ---------- *)
+(* every channel served by its own changesFeed loop -- request limit passed down, any query limit,
+   channel cache or bypass cache per channel -- merged with the limit: the answer computed from the
+   history.  (Plain requests; with active_only the per-channel feeds depend on the query's filter.) *)
+Theorem C01_changes_end_to_end_paginated : forall hist caches user user_doc user_seq req since limit hi low qlimit,
+  NoDup (map h_seq hist) -> (1 <= qlimit)%nat ->
+  map fst caches = visible user req ->
+  (forall c sc, In (c, sc) caches ->
+     exists F, truth_wf (chan_log c hist) F /\ sc_inv (chan_log c hist) F sc /\
+               quiescent (chan_log c hist) F /\ seq_bounded (chan_log c hist)) ->
+  multi_feed_pag hist caches user_doc user_seq since limit hi low qlimit
+  = expected_tok hist user user_doc user_seq req since limit false hi low.
+Proof. exact changes_end_to_end_paginated. Qed.
+Print Assumptions C01_changes_end_to_end_paginated.
+
 (* ---------- non-vacuity ---------- *)
 Example C01_nonvacuous :
   let e1 := mkE 1 1 1 false false in let e2 := mkE 2 2 2 false false in
@@ -222,10 +439,17 @@ Example C01_nonvacuous :
   vfrom (s_c s) = 4 /\ logs (s_c s) = [e4] /\
   snd (get_changes (s_B s) (s_c s) 0 0 false) = [e2; e3; e4] /\ truth (s_B s) 0 = [e2; e3; e4] /\
   expected_changes [HW 1 1 1 [2] false; HW 2 2 2 [2;3] false; HW 1 3 3 [3] false] (Some [2]) 101 0 [0] (mk 0 0 0) 0 false 3
-    = [mkR (mk 0 0 2) 2 2 false [] false false; mkR (mk 0 0 3) 1 3 false [2] false true].
+    = [mkR (mk 0 0 2) 2 2 false [] false false; mkR (mk 0 0 3) 1 3 false [2] false true] /\
+  (* a feed that needs three pages (query limit 2, five entries, cache of one) and a low::seq token resumed *)
+  (let B := [mkE 5 5 5 false false; mkE 4 4 4 false false; mkE 3 3 3 false false; mkE 2 2 2 false false; mkE 1 1 1 false false] in
+   snd (changes_feed B 7 (SCache (mkC [mkE 5 5 5 false false] 5 [5] 1 1)) (mk 0 0 0) 0 false 2)
+     = map (feed_row 7 0) (rev B) /\
+   snd (changes_feed B 7 SBypass (mk 0 0 0) 4 false 3) = map (feed_row 7 0) (firstn 4 (rev B))) /\
+  canonical (mk 0 2 5) /\ canonical (mk 9 4 7) /\ resume_token (mkR (mk 0 2 5) 1 1 false [] false false) = mk 0 2 5.
 Proof.
-  cbv zeta. split; [|split].
+  cbv zeta. split; [|split; [|split]].
   - cbn. repeat split; auto; intros H; repeat (destruct H as [H|H]; [discriminate|]); auto.
   - intros b Hb. vm_compute in Hb. vm_compute. intuition.
+  - vm_compute. repeat split; reflexivity.
   - vm_compute. repeat split; reflexivity.
 Qed.
